@@ -19,9 +19,13 @@ import (
 	"encoding/json"
 	"fmt"
 	"os"
+	"reflect"
 	"strings"
 
+	interp "github.com/compose-spec/compose-go/v2/interpolation"
+	"github.com/compose-spec/compose-go/v2/loader"
 	"github.com/compose-spec/compose-go/v2/types"
+	"github.com/compose-spec/compose-go/v2/validation"
 
 	"verifharness/core"
 )
@@ -467,5 +471,142 @@ func runC10Opts(ctx *core.Ctx) {
 			}
 			add(l, "valid", "valid", kind, core.EncodeVal(map[string]any{}), i == 0)
 		}
+	}
+}
+
+// ---------------------------------------------------------------- the cast in front of the structural stage, on the real code
+
+// c10.castValidate: the real `interp.Interpolate` with the loader's cast table (what runs in front of validation.Validate
+// unless SkipInterpolation is set) against `castTop`, and the real validation.Validate on the tree *before* and *after* that
+// cast against each other and against the model: the verdict must not depend on whether the cast has run
+// (`validate_cast_invariant`, here observed on the two real functions).
+func sameJSON(a, b json.RawMessage) bool {
+	var x, y any
+	if json.Unmarshal(a, &x) != nil || json.Unmarshal(b, &y) != nil {
+		return false
+	}
+	return reflect.DeepEqual(x, y)
+}
+
+func vclassOf(t map[string]any) string {
+	if err := validation.Validate(t); err != nil {
+		return "err:" + validateClass(err)
+	}
+	return "ok"
+}
+
+func init() {
+	core.Register("c10.castValidate", &core.CheckDef{
+		Real: func(raw json.RawMessage) any {
+			var a struct {
+				Tree json.RawMessage `json:"tree"`
+			}
+			json.Unmarshal(raw, &a)
+			t, ok := core.DecodeValRaw(a.Tree).(map[string]any)
+			if !ok {
+				return map[string]any{"bad": "not a mapping"}
+			}
+			out := map[string]any{"vraw": vclassOf(core.DeepCopyVal(t).(map[string]any))}
+			cast, err := interp.Interpolate(core.DeepCopyVal(t).(map[string]any), interp.Options{
+				TypeCastMapping: loader.VerifCastTable(),
+				LookupValue:     func(string) (string, bool) { return "", false },
+			})
+			if err != nil {
+				out["cast"] = "err"
+				if !strings.Contains(err.Error(), "invalid boolean") {
+					out["cast"] = "err:" + err.Error()
+				}
+				return map[string]any{"ok": out}
+			}
+			out["cast"] = "ok"
+			out["tree"] = core.EncodeVal(cast)
+			out["vcast"] = vclassOf(cast)
+			return map[string]any{"ok": out}
+		},
+		DriverOp: "c10.castValidate",
+		Judge: func(args, real, drv json.RawMessage) *core.Verdict {
+			if v := c10Crash(real); v != nil {
+				return v
+			}
+			var r struct {
+				OK struct {
+					VRaw  string          `json:"vraw"`
+					Cast  string          `json:"cast"`
+					Tree  json.RawMessage `json:"tree"`
+					VCast string          `json:"vcast"`
+				} `json:"ok"`
+			}
+			var d struct {
+				Castable bool            `json:"castable"`
+				Cast     json.RawMessage `json:"cast"`
+				VRaw     json.RawMessage `json:"vraw"`
+				VCast    json.RawMessage `json:"vcast"`
+			}
+			if json.Unmarshal(real, &r) != nil || r.OK.VRaw == "" || json.Unmarshal(drv, &d) != nil || d.VRaw == nil {
+				return core.Disagree("malformed exchange: " + string(real) + " / " + string(drv))
+			}
+			cls := func(j json.RawMessage) string {
+				var m map[string]any
+				json.Unmarshal(j, &m)
+				if e, ok := m["err"].(string); ok {
+					return "err:" + e
+				}
+				if p, ok := m["panic"].(string); ok {
+					return "panic:" + p
+				}
+				return "ok"
+			}
+			// the property-level observation on the two real functions: the same verdict before and after the cast
+			if r.OK.Cast == "ok" && r.OK.VRaw != r.OK.VCast {
+				return core.Fail("validate:verdict-depends-on-cast:"+r.OK.VRaw+"/"+r.OK.VCast,
+					fmt.Sprintf("validation.Validate decides the tree %s before interpolation has cast `external` (SkipInterpolation) and %s after", r.OK.VRaw, r.OK.VCast))
+			}
+			if (r.OK.Cast == "ok") != d.Castable {
+				return core.Disagree(fmt.Sprintf("the cast of the `external` leaves: real %s, model castable=%v", r.OK.Cast, d.Castable))
+			}
+			if r.OK.VRaw != cls(d.VRaw) {
+				return core.Disagree("Validate on the tree as written: real " + r.OK.VRaw + ", model " + cls(d.VRaw))
+			}
+			if r.OK.Cast == "ok" {
+				if r.OK.VCast != cls(d.VCast) {
+					return core.Disagree("Validate on the cast tree: real " + r.OK.VCast + ", model " + cls(d.VCast))
+				}
+				if !sameJSON(r.OK.Tree, d.Cast) {
+					return core.Disagree("the cast tree differs: real " + string(r.OK.Tree) + ", model " + string(d.Cast))
+				}
+			}
+			return nil
+		},
+		Timeout: c10Timeout,
+	})
+}
+
+func runC10Cast(ctx *core.Ctx) {
+	for _, sp := range externalSpellings {
+		if s, ok := sp.v.(string); ok && strings.Contains(s, "$") {
+			continue // a variable reference: substitution, not the cast, decides (C08)
+		}
+		for _, c := range externalCompanions() {
+			ctx.Count("cast:volumes:" + sp.kind)
+			ctx.Add("c10.castValidate", treeArgs(map[string]any{"volumes": map[string]any{"v": withExternal(c.v, sp.v)}}))
+		}
+		for _, sec := range []string{"configs", "secrets"} {
+			for _, c := range []treeVariant{{"alone", map[string]any{}}, {"file", map[string]any{"file": "./f"}}, {"fileEnv", map[string]any{"file": "./f", "environment": "E"}}, {"name", map[string]any{"name": "n"}}} {
+				ctx.Count("cast:" + sec + ":" + sp.kind)
+				ctx.Add("c10.castValidate", treeArgs(map[string]any{sec: map[string]any{"o": withExternal(c.v, sp.v)}}))
+			}
+		}
+	}
+	// two resources in two sections with independent spellings
+	r := ctx.Rng
+	for i := 0; i < ctx.Pick(200, 5000); i++ {
+		a, b := externalSpellings[r.Intn(len(externalSpellings)-1)], externalSpellings[r.Intn(len(externalSpellings)-1)]
+		cs := externalCompanions()
+		ctx.Count("cast:pair")
+		ctx.Add("c10.castValidate", treeArgs(map[string]any{
+			"volumes": map[string]any{"v": withExternal(cs[r.Intn(len(cs))].v, a.v), "w": nil},
+			"secrets": map[string]any{"o": withExternal(map[string]any{"file": "./f"}, b.v)},
+			"services": map[string]any{"s": map[string]any{"image": "i", "privileged": false}},
+		}))
 	}
 }
